@@ -21,7 +21,9 @@ def layout_mutants(rng, s):
         if k == 'St':
             _, name, size, align, fields = node
             cands = [('St', name, ((size or 0) + 1) % 2**64, align, fields), ('St', name, size, ((align or 1) * 2) % 2**64, fields), ('St', name, None, align, fields)]
+            cands.append(('St', name, size, align, fields + [(b"extra", ('Pr', 2, None), ((size or 1) - 1))]))   # an extra trailing field inside the same size
             if fields:
+                cands.append(('St', name, size, align, fields[:-1]))
                 i = rng.randrange(len(fields))
                 n, v, o = fields[i]
                 cands.append(('St', name, size, align, fields[:i] + [(n, v, ((o or 0) + 1) % 2**64)] + fields[i + 1:]))
@@ -70,18 +72,27 @@ def run(chk, tier, seed):
     so = C.run_harness(binary, sl)
     obs = C.run_harness(binary, lines, timeout=900)
     terms = []
+    tree_oracle = []
     for k, (s, t) in meta.items():
         o = obs.get("y%d" % k, "")
         if o not in ("0", "1"):
             chk.violations.append(("layout_compatible failed: " + o[:60], {"harness_line": lines[k - 1][:2000]}))
             continue
         terms.append((k, "agree_layout %s %s %s" % (G.coq(s), G.coq(t), "true" if o == "1" else "false")))
+        if o == "1":
+            tree_oracle.append((k, "match mty_of %s, mty_of %s with Some m1, Some m2 => mty_eqb m1 m2 | _, _ => false end" % (G.coq(s), G.coq(t))))
         chk.distinct.add(("tree", o, G.py_shape(s) == G.py_shape(t)))
     bad, errs = C.coq_eval_bad("C11", HEADER13, terms, shard=150)
     for ids, out in errs:
         chk.broken.append("shard failed to evaluate: " + out[-300:])
     for i in bad[:10]:
         chk.broken.append("correspondence C11: Schema::layout_compatible differs from the model on %s vs %s" % (" ".join(G.tokens(meta[i][0]))[:200], " ".join(G.tokens(meta[i][1]))[:200]))
+    tbad, terrs = C.coq_eval_bad("C11t", A.HEADER.replace("HarnessAbi.", "HarnessAbi AbiLayout HarnessC11."), tree_oracle, shard=150)
+    for ids_, out in terrs:
+        chk.broken.append("tree oracle shard failed to evaluate: " + out[-300:])
+    for k in tbad:
+        chk.violations.append(("Schema::layout_compatible returns true for two schemas that do not claim the identical memory type",
+                               {"harness_line": lines[k - 1][:3000], "a": " ".join(G.tokens(meta[k][0]))[:600], "b": " ".join(G.tokens(meta[k][1]))[:600]}))
     # (b) oracle on REAL schemas: whenever two real definitions are declared compatible, their memory types are identical
     oterms = []
     hx = {i: so.get("s%d" % i) for i, _ in roots}
